@@ -65,14 +65,37 @@ def build_driver():
     return ok
 
 
+def harness_dir():
+    """The harness crate to build: harness/ itself for /repo; for another tree (DSI_REPO, used to try
+    seeded changes on a scratch worktree without touching /repo) a copy whose path dependency
+    points at that tree."""
+    if os.path.realpath(REPO) == '/repo':
+        return HARNESS
+    tag = hashlib.sha1(os.path.realpath(REPO).encode()).hexdigest()[:10]
+    d = os.path.join(WORK, 'harness-' + tag)
+    os.makedirs(os.path.join(d, 'src'), exist_ok=True)
+    os.makedirs(os.path.join(d, '.cargo'), exist_ok=True)
+    for rel in os.listdir(os.path.join(HARNESS, 'src')):
+        src = open(os.path.join(HARNESS, 'src', rel)).read()
+        dst = os.path.join(d, 'src', rel)
+        if not os.path.exists(dst) or open(dst).read() != src:
+            open(dst, 'w').write(src)
+    toml = open(os.path.join(HARNESS, 'Cargo.toml')).read().replace('path = "/repo"', 'path = "%s"' % os.path.realpath(REPO))
+    if not os.path.exists(os.path.join(d, 'Cargo.toml')) or open(os.path.join(d, 'Cargo.toml')).read() != toml:
+        open(os.path.join(d, 'Cargo.toml'), 'w').write(toml)
+    open(os.path.join(d, '.cargo', 'config.toml'), 'w').write(open(os.path.join(HARNESS, '.cargo', 'config.toml')).read())
+    return d
+
+
 def harness_bin(features=(), profile='release'):
-    """Build the harness against /repo's working tree; returns the binary path or None."""
+    """Build the harness against the tree's working copy; returns the binary path or None."""
     feats = sorted(features)
     tag = '-'.join(feats) if feats else 'default'
-    tdir = os.path.join(HARNESS, 'target' if (not feats and profile == 'release') else 'target-%s-%s' % (tag, profile))
-    lock = os.path.join(HARNESS, 'Cargo.lock')
-    with Lock('cargo-' + tag + '-' + profile):
-        # the lock file is a copy of /repo's (cargo cannot regenerate it offline)
+    hdir = harness_dir()
+    tdir = os.path.join(hdir, 'target' if (not feats and profile == 'release') else 'target-%s-%s' % (tag, profile))
+    lock = os.path.join(hdir, 'Cargo.lock')
+    with Lock('cargo-' + os.path.basename(hdir) + tag + '-' + profile):
+        # the lock file is a copy of the repository's (cargo cannot regenerate it offline)
         try:
             src = open(os.path.join(REPO, 'Cargo.lock')).read()
             if not os.path.exists(lock):
@@ -84,7 +107,7 @@ def harness_bin(features=(), profile='release'):
             cmd.append('--release')
         if feats:
             cmd += ['--features', ','.join(feats)]
-        rc, out = sh(cmd, cwd=HARNESS, timeout=1800)
+        rc, out = sh(cmd, cwd=hdir, timeout=1800)
     if rc != 0:
         log(out[-4000:])
         return None
